@@ -684,3 +684,21 @@ package expr
 //@   property C09
 //@   modifies* seededState[r.rand], seededState[r.faker]
 //@   frameprop C09
+
+// Merging inherited headers/parameters/cookies into an endpoint's own never shares the child attributes of the
+// service- or API-level definition with the endpoint: what is merged in is a copy made for the purpose
+// (Attribute() returns a fresh attribute), so finalizing one endpoint cannot leak defaults or validations
+// into another.
+//@ func (*MappedAttributeExpr).Attribute
+//@   params ma
+//@   property C02
+//@   requires ma != nil
+//@   ensures* own.copy: result != nil && fresh(result)
+//@   modifies all
+//@ func (*MappedAttributeExpr).Merge
+//@   params ma other
+//@   property C02
+//@   callspec (*AttributeExpr).Merge params a o
+//@       requires* merges.a.copy: sinceEntry(o)
+//@       modifies all
+//@   modifies all
